@@ -45,7 +45,7 @@ pub enum Act {
     /// a split round: the leader's block reaches only the nodes in the mask, the others time out
     /// and skip; then skip votes, notar votes, the late block, certificates and fallback votes are
     /// delivered to everybody in the order-th permutation
-    SplitRound { got_block: u16, order: u8 },
+    SplitRound { got_block: u16, order: u16 },
 }
 
 #[derive(Clone, Debug, Serialize, Deserialize)]
@@ -69,7 +69,7 @@ impl Property for C01 {
         tier.pick(1_200, 40_000)
     }
     fn rule(&self) -> String {
-        "cases: 6..=9 validators with small-integer stakes, a Byzantine set of 0..=2 validators holding strictly less than \
+        "cases: 5..=10 validators with equal, small-integer or threshold-exact stakes (40/60 and 20/80 splits reachable), a Byzantine set of 0..=2 validators holding strictly less than \
          20 % (exactly-below cases included), any further validators crashed at generated points; leaders rotate per \
          window (correct leaders: one block per slot with a parent from their own ready-parent set or their own previous \
          block; Byzantine leaders: several blocks per slot shown to different nodes, arbitrary known parents); generated \
@@ -91,7 +91,11 @@ impl Property for C01 {
         ]
     }
     fn strategy(&self, _tier: Tier) -> BoxedStrategy<Case> {
-        let stakes = prop_oneof![2 => (6usize..=9).prop_map(|n| vec![1u64; n]), 3 => prop::collection::vec(1u64..=4, 6..=9)];
+        let stakes = prop_oneof![
+            3 => (5usize..=10).prop_map(|n| vec![1u64; n]),
+            2 => prop::collection::vec(1u64..=4, 5..=9),
+            2 => crate::fixtures::epoch::stakes_strategy(5, 10).prop_filter("stakes must stay small", |v| v.iter().all(|s| *s < 1_000_000)),
+        ];
         let mask = (any::<u16>(), any::<u16>()).prop_map(|(a, b)| a | b);
         let dslot = prop_oneof![5 => Just(0i8), 2 => Just(-1i8), 1 => Just(1i8), 1 => Just(-2i8)];
         let vk = prop_oneof![4 => Just(VKind::Notar), 2 => Just(VKind::NotarFallback), 3 => Just(VKind::Skip), 2 => Just(VKind::SkipFallback), 3 => Just(VKind::Final)];
@@ -109,7 +113,7 @@ impl Property for C01 {
             1 => any::<u8>().prop_map(|node| Act::Crash { node }),
             4 => (any::<u16>(), any::<u16>(), 0u8..3).prop_map(|(split_mask, parent2, flush)| Act::Equivocate { split_mask, parent2, flush }),
             8 => (0u8..6, prop_oneof![4 => Just(0i8), 2 => Just(-1i8), 1 => Just(-2i8)], any::<u16>()).prop_map(|(what, dslot, to_mask)| Act::DeliverWhere { what, dslot, to_mask }),
-            6 => (any::<u16>(), 0u8..120).prop_map(|(got_block, order)| Act::SplitRound { got_block, order }),
+            6 => (any::<u16>(), 0u16..720).prop_map(|(got_block, order)| Act::SplitRound { got_block, order }),
         ];
         (stakes, prop::collection::vec(prop_oneof![3 => 0u8..3, 1 => any::<u8>()], 3), prop_oneof![1 => Just(0u8), 3 => Just(1u8), 2 => Just(2u8)], any::<u64>(), prop::collection::vec(act, 1..70))
             .prop_map(|(stakes, byz_order, byz_count, seed, acts)| Case { stakes, byz_order, byz_count, seed, acts })
@@ -563,20 +567,24 @@ async fn run(case: &Case) -> Outcome {
             }
             Act::SplitRound { got_block, order } => {
                 // expand into elementary actions on the same world
-                let mut steps: Vec<u8> = vec![0, 1, 2, 3, 4];
+                let mut steps: Vec<u8> = vec![0, 1, 2, 3, 4, 5];
                 let mut k = *order as usize;
                 let mut perm = Vec::new();
-                for f in (1..=5usize).rev() {
+                for f in (1..=6usize).rev() {
                     perm.push(steps.remove(k % f));
                     k /= f;
                 }
-                let mut sub: Vec<Act> = vec![Act::Honest { to_mask: *got_block, flush: 0 }, Act::Wait { ms: 800 }];
+                // the crashed-leader timeout of the genesis window refers to the genesis slot and is
+                // ignored, so slot timeouts only start at 760 + 390 + 400 ms there
+                let wait = if cursor < 4 { 1150 + 400 * cursor as u16 + 50 } else { 800 };
+                let mut sub: Vec<Act> = vec![Act::Honest { to_mask: *got_block, flush: 0 }, Act::Wait { ms: wait }];
                 for st in perm {
                     sub.push(match st {
                         0 => Act::DeliverWhere { what: 2, dslot: 0, to_mask: u16::MAX },
                         1 => Act::DeliverWhere { what: 0, dslot: 0, to_mask: u16::MAX },
                         2 => Act::Honest { to_mask: u16::MAX, flush: 0 },
                         3 => Act::DeliverWhere { what: 5, dslot: 0, to_mask: u16::MAX },
+                        4 => Act::DeliverWhere { what: 4, dslot: 0, to_mask: u16::MAX },
                         _ => Act::DeliverWhere { what: if *order % 2 == 0 { 3 } else { 1 }, dslot: 0, to_mask: u16::MAX },
                     });
                 }
@@ -731,6 +739,21 @@ fn finish(mut out: Outcome, w: World) -> Outcome {
                 PoolEvent::SafeToNotar(_) => out.label("event:safe-to-notar"),
                 PoolEvent::SafeToSkip(_) => out.label("event:safe-to-skip"),
                 _ => {}
+            }
+        }
+    }
+    if std::env::var_os("VERIF_DEBUG").is_some() {
+        eprintln!("wire votes: {:?}", w.wire_votes);
+        for (i, node) in w.nodes.iter().enumerate() {
+            if let Some(node) = node {
+                let ev: Vec<String> = node.events.iter().map(|(s, e)| match e {
+                    PoolEvent::CertCreated(c) => format!("{s}:cert({:?},{})", cert_kind(c), c.slot().inner()),
+                    PoolEvent::ParentReady { slot, .. } => format!("{s}:PR({})", slot.inner()),
+                    PoolEvent::SafeToNotar(b) => format!("{s}:S2N({})", b.0.inner()),
+                    PoolEvent::SafeToSkip(sl) => format!("{s}:S2S({})", sl.inner()),
+                    PoolEvent::Standstill(..) => format!("{s}:standstill"),
+                }).collect();
+                eprintln!("node {i}: finalized {} events {ev:?}", node.pool.finalized_slot().inner());
             }
         }
     }
